@@ -134,6 +134,13 @@ type workload struct {
 	Build      func(d *driver.Driver, a arch.Type, p []int) benchmarks.Benchmark
 	NeedsMNIST bool
 	Runnable   bool // false: linked but cannot run here (reason in Admit)
+	// MultiLaunch: the workload launches several kernels that communicate
+	// through device memory and / or copies data between host and device
+	// between launches (kmeans re-uploads its centroids before every
+	// iteration and reads the membership back after it). In timing mode these
+	// are the runs that depend on what the caches hold across launches and
+	// copies.
+	MultiLaunch bool
 	// Shapes2D: for workloads whose kernels are launched with a 2-D grid,
 	// admissible parameter vectors that give tall (few work-group columns, many
 	// rows), wide, or large (> 256 work-groups) grids. The driver's unified
@@ -219,6 +226,7 @@ func workloads() []*workload {
 				}
 				return ""
 			},
+			MultiLaunch: true,
 			Build: func(d *driver.Driver, a arch.Type, p []int) benchmarks.Benchmark {
 				b := bitonicsort.NewBenchmark(d)
 				b.Arch, b.Length, b.OrderAscending = a, p[0], true
@@ -232,6 +240,7 @@ func workloads() []*workload {
 			Admit:      "length must be a power of two >= 2 (no guard in FastWalshTransform_Kernels.cl; grid = length/2 exactly, work-group 256, partial group formed by the grid builder). Plain multi-GPU excluded: the host enqueues the complete transform on every queue over the same array (no split)",
 			Adm:        func(p []int, c class) bool { return pow2(p[0]) && p[0] >= 2 },
 			PlainMulti: false, Splits: false, UnifiedMem: true, TimingList: tlNone, Oracle: oVerify,
+			MultiLaunch: true,
 			Build: func(d *driver.Driver, a arch.Type, p []int) benchmarks.Benchmark {
 				b := fastwalshtransform.NewBenchmark(d)
 				b.Arch, b.Length = a, uint32(p[0])
@@ -252,7 +261,8 @@ func workloads() []*workload {
 				}
 				return ""
 			},
-			Shapes2D: [][]int{{136, 2}, {96, 3}}, // (node/8)^2: 17x17 = 289, 12x12 = 144 work-groups
+			Shapes2D:    [][]int{{136, 2}, {96, 3}}, // (node/8)^2: 17x17 = 289, 12x12 = 144 work-groups
+			MultiLaunch: true,
 			Build: func(d *driver.Driver, a arch.Type, p []int) benchmarks.Benchmark {
 				b := floydwarshall.NewBenchmark(d)
 				b.NumNodes, b.NumIterations, b.Arch = uint32(p[0]), uint32(p[1]), a
@@ -305,6 +315,7 @@ func workloads() []*workload {
 				return n * n * p[1] / 4
 			},
 			PlainMulti: true, Splits: false, UnifiedMem: true, TimingList: tlFull, Oracle: oVerify,
+			MultiLaunch: true,
 			Build: func(d *driver.Driver, a arch.Type, p []int) benchmarks.Benchmark {
 				b := nbody.NewBenchmark(d)
 				b.Arch, b.NumParticles, b.NumIterations = a, int32(p[0]), int32(p[1])
@@ -363,14 +374,15 @@ func workloads() []*workload {
 		{
 			Name: "kmeans", Suite: "heteromark", Archs: both,
 			ParamNames: []string{"points", "features", "clusters", "maxiter"}, Anchor: []int{1024, 32, 5, 5}, AnchorSrc: "cases.go: -points=1024 -features=32 -clusters=5 -max-iter=5",
-			Sizes: [][]int{{8, 2, 2, 2}, {100, 4, 3, 3}, {260, 8, 5, 2}, {256, 32, 5, 2}, {1024, 32, 5, 5}},
+			Sizes: [][]int{{8, 2, 2, 2}, {8, 2, 2, 4}, {64, 4, 3, 5}, {100, 4, 3, 3}, {260, 8, 5, 2}, {256, 32, 5, 2}, {1024, 32, 5, 5}},
 			Admit: "points must be a multiple of nGPUs and >= clusters (initial centroids are the first points): grid = points/nGPUs exactly, kernels.cl guards point_id < npoints / tid >= npoints; features, clusters, maxiter >= 1",
 			Adm: func(p []int, c class) bool {
 				return p[0] >= c.nPlain() && p[0]%c.nPlain() == 0 && p[0] >= p[2] && p[1] >= 1 && p[2] >= 1 && p[3] >= 1
 			},
 			Cost:       func(p []int) int { return p[0] * p[1] * p[2] * p[3] },
 			PlainMulti: true, Splits: true, UnifiedMem: true, TimingList: tlFull, Oracle: oVerify,
-			Quar: hipIgnoresGlobalOffset,
+			Quar:        hipIgnoresGlobalOffset,
+			MultiLaunch: true,
 			Build: func(d *driver.Driver, a arch.Type, p []int) benchmarks.Benchmark {
 				b := kmeans.NewBenchmark(d)
 				b.Arch, b.NumPoints, b.NumFeatures, b.NumClusters, b.MaxIter = a, p[0], p[1], p[2], p[3]
@@ -391,6 +403,7 @@ func workloads() []*workload {
 				}
 				return ""
 			},
+			MultiLaunch: true,
 			Build: func(d *driver.Driver, a arch.Type, p []int) benchmarks.Benchmark {
 				b := pagerank.NewBenchmark(d)
 				b.Arch, b.NumNodes, b.NumConnections, b.MaxIterations = a, uint32(p[0]), uint32(p[1]), uint32(p[2])
@@ -406,6 +419,7 @@ func workloads() []*workload {
 			Adm:        func(p []int, c class) bool { return p[0] == p[1] && p[0] >= 1 },
 			Cost:       func(p []int) int { return p[0] * p[1] * 2 },
 			PlainMulti: true, Splits: false, UnifiedMem: true, TimingList: tlFull, Oracle: oVerify,
+			MultiLaunch: true,
 			Build: func(d *driver.Driver, a arch.Type, p []int) benchmarks.Benchmark {
 				b := atax.NewBenchmark(d)
 				b.Arch, b.NX, b.NY = a, p[0], p[1]
@@ -420,6 +434,7 @@ func workloads() []*workload {
 			Adm:        func(p []int, c class) bool { return p[0] >= 1 && p[1] >= 1 },
 			Cost:       func(p []int) int { return p[0] * p[1] * 2 },
 			PlainMulti: true, Splits: false, UnifiedMem: true, TimingList: tlFull, Oracle: oVerify,
+			MultiLaunch: true,
 			Build: func(d *driver.Driver, a arch.Type, p []int) benchmarks.Benchmark {
 				b := bicg.NewBenchmark(d)
 				b.Arch, b.NX, b.NY = a, p[0], p[1]
@@ -435,6 +450,7 @@ func workloads() []*workload {
 			Adm:        func(p []int, c class) bool { return p[0] >= 64 && p[0]%64 == 0 },
 			Cost:       func(p []int) int { return p[0] * p[0] * 4 },
 			PlainMulti: false, Splits: false, UnifiedMem: true, TimingList: tlNone, Oracle: oVerify,
+			MultiLaunch: true,
 			Build: func(d *driver.Driver, a arch.Type, p []int) benchmarks.Benchmark {
 				b := nw.NewBenchmark(d)
 				b.Arch = a
@@ -451,6 +467,7 @@ func workloads() []*workload {
 			Adm:        func(p []int, c class) bool { return p[0] >= 2 && p[1] >= 1 && p[1] < p[0] },
 			Cost:       func(p []int) int { return (p[0] + 1024) * 40 },
 			PlainMulti: false, Splits: false, UnifiedMem: true, TimingList: tlBFS, Oracle: oVerify,
+			MultiLaunch: true,
 			Build: func(d *driver.Driver, a arch.Type, p []int) benchmarks.Benchmark {
 				b := bfs.NewBenchmark(d)
 				b.Arch, b.NumNode, b.Degree, b.MaxDepth = a, p[0], p[1], 1<<31-1
@@ -496,7 +513,8 @@ func workloads() []*workload {
 			},
 			Cost:       func(p []int) int { return p[0] * p[1] * p[2] * 30 },
 			PlainMulti: true, Splits: false, UnifiedMem: true, TimingList: tlFull, Oracle: oVerify,
-			Shapes2D: [][]int{{32, 1280, 1}, {32, 2048, 2}, {320, 64, 1}, {272, 128, 1}}, // work-groups (rows/16) x (cols/64): 2x20, 2x32, 20x1, 17x2
+			Shapes2D:    [][]int{{32, 1280, 1}, {32, 2048, 2}, {320, 64, 1}, {272, 128, 1}}, // work-groups (rows/16) x (cols/64): 2x20, 2x32, 20x1, 17x2
+			MultiLaunch: true,
 			Build: func(d *driver.Driver, a arch.Type, p []int) benchmarks.Benchmark {
 				b := stencil2d.NewBenchmark(d)
 				b.Arch, b.NumIteration, b.NumRows, b.NumCols = a, p[2], p[0]+2, p[1]+2
@@ -538,6 +556,7 @@ func workloads() []*workload {
 				}
 				return ""
 			},
+			MultiLaunch: true,
 			Build: func(d *driver.Driver, a arch.Type, p []int) benchmarks.Benchmark {
 				b := conv2d.NewBenchmark(d)
 				b.N, b.C, b.H, b.W, b.KernelChannel = p[0], p[1], p[2], p[3], p[4]
